@@ -170,6 +170,19 @@ def tables() -> dict:
     from . import splice
 
     t["spliceSites"] = splice.sites()
+    # --- dialect cache creation guard (C13) ----------------------------------------------
+    # `with self.indent(f"if not '{cache_name}' in cls.__dict__:")` in add_pack_method / add_unpack_method:
+    # the guard must look at the class's OWN namespace
+    guards = []
+    for node in ast.walk(btree):
+        if isinstance(node, ast.FunctionDef) and node.name in ("add_pack_method", "add_unpack_method"):
+            for sub in ast.walk(node):
+                if isinstance(sub, ast.JoinedStr):
+                    text = "".join(v.value if isinstance(v, ast.Constant) else "{}" for v in sub.values)
+                    if "cls." in text and text.lstrip().startswith("if") and text.rstrip().endswith(":"):
+                        guards.append((node.name, text))
+    t["cacheGuards"] = guards
+    t["cacheGuardOwnDict"] = len(guards) == 2 and all(g[1] == "if not '{}' in cls.__dict__:" for g in guards)
     return t
 
 
@@ -211,6 +224,10 @@ def render(t: dict) -> str:
         "def spliceSites : List SpliceSite := "
         + lean_list(t["spliceSites"], lambda s: "{ file := %s, line := %d, var := %s, conv := %s, quoted := %s }" % (lean_str(s["file"]), s["line"], lean_str(s["var"]), lean_str(s["conv"]), "true" if s["quoted"] else "false"))
     )
+    L.append("")
+    L.append("/-- the dialect caches are created under `if not '<cache>' in cls.__dict__:` (own namespace only) -/")
+    L.append("def cacheGuardOwnDict : Bool := " + ("true" if t["cacheGuardOwnDict"] else "false"))
+    L.append("def cacheGuards : List (String × String) := " + lean_list(t["cacheGuards"], lambda g: f"({lean_str(g[0])}, {lean_str(g[1])})"))
     L.append("")
     L.append("end Mashu.Generated")
     return "\n".join(L) + "\n"
